@@ -7,6 +7,8 @@ fail=0
 for d in seeded/*/; do
   id=$(basename $d); prop=${id%%-*}
   if grep -q not_judged_by_design $d/meta.json; then echo "SKIP   $id (not judged by design, see meta.json)"; continue; fi
+  other=$(python3 -c "import json,sys; print(json.load(open('$d/meta.json')).get('check_property',''))" 2>/dev/null)
+  if [ -n "$other" ]; then prop=$other; fi
   out=$(tools/try_mutant.sh $d/patch.diff $prop $budget 2>&1)
   if echo "$out" | grep -q "^VIOLATION property=$prop"; then echo "CAUGHT $id $(echo "$out" | grep -m1 signature | cut -c1-120)"; else echo "MISSED $id: $(echo "$out" | tail -2 | tr '\n' ' ' | cut -c1-200)"; fail=1; fi
 done
